@@ -352,6 +352,36 @@ func checkBlock(ch *sim.Chain, parent consensus.State, b types.Block, bs consens
 			if !sameHashes(missing, still) {
 				return stats.Failf("C18/outline-partial", "partial pool: reported missing %v, want %v", missing, still)
 			}
+			// completion in two steps, as a node does it (complete from the pool, fetch what is reported missing,
+			// complete again with the reply): the outline keeps what the first call matched, Missing() agrees with
+			// what Complete returned, and the second call, given exactly the transactions still missing, yields the block
+			if got := cp.Missing(); !sameHashes(got, still) {
+				return stats.Failf("C18/outline-incremental", "after a partial Complete, Missing() reports %v but Complete returned %v", got, still)
+			}
+			var r1 []types.Transaction
+			var r2 []types.V2Transaction
+			stillSet := map[types.Hash256]bool{}
+			for _, h := range still {
+				stillSet[h] = true
+			}
+			for i := range omitV1 {
+				if stillSet[omitV1[i].MerkleLeafHash()] {
+					r1 = append(r1, sim.CloneV1(omitV1[i]))
+				}
+			}
+			for i := range omitV2 {
+				if stillSet[omitV2[i].MerkleLeafHash()] {
+					r2 = append(r2, sim.CloneV2(omitV2[i]))
+				}
+			}
+			full2, missing2 := cp.Complete(parent, r1, r2)
+			if len(missing2) != 0 {
+				return stats.Failf("C18/outline-incremental", "second Complete was given exactly the %d transactions reported missing by the first, but %d are reported missing again", len(still), len(missing2))
+			}
+			if !bytes.Equal(enc(types.V2Block(full2)), blkBytes) {
+				return stats.Failf("C18/outline-incremental", "block completed in two steps differs from the original (subset %b)", mask)
+			}
+			rec.Label("outline:completed-in-two-steps")
 		}
 		// full pool: omitted transactions reversed, mixed with decoys
 		pool1 := append(append([]types.Transaction(nil), decoysV1...), reverseV1(omitV1)...)
